@@ -58,7 +58,8 @@ type listener struct {
 	drain     chan struct{}
 	quitOnce  sync.Once
 	quit      chan struct{}
-	done      chan struct{}
+	started   bool          // Serve has been called, guarded by mu
+	done      chan struct{} // closed when Serve returns
 }
 
 func NewListener(cfg *service.Listener, stats *DownstreamStats, logger log.Logger, connHandleFn ConnHandlerFunc) (Listener, error) {
@@ -86,6 +87,12 @@ func (l *listener) Serve() error {
 	ip := l.cfg.GetAddress().GetIp()
 	port := l.cfg.GetAddress().GetPort()
 	address := fmt.Sprintf("%s:%d", ip, port)
+
+	l.mu.Lock()
+	l.started = true
+	l.mu.Unlock()
+	// whichever way Serve returns, Stop must not be left waiting.
+	defer close(l.done)
 
 	verifPause("listener.serve.enter", l)
 	var ln net.Listener
@@ -124,7 +131,6 @@ func (l *listener) Serve() error {
 
 	l.connsWg.Wait()
 	l.Infof("all conns done")
-	close(l.done)
 	return nil
 }
 
@@ -269,6 +275,7 @@ func (l *listener) Stop() error {
 	})
 
 	l.mu.Lock()
+	started := l.started
 	conns := l.conns
 	l.conns = nil
 	// removeConn ignores connections once the registry is gone, settle them here.
@@ -284,6 +291,8 @@ func (l *listener) Stop() error {
 	for conn := range conns {
 		conn.Close()
 	}
-	<-l.done
+	if started {
+		<-l.done
+	}
 	return nil
 }
